@@ -22,6 +22,7 @@ const (
 	tInt  ty = "Int"
 	tBool ty = "Bool"
 	tD34  ty = "D34"
+	tTime ty = "Time" // time.Time as integer nanoseconds (lockup schedule kernels)
 	tErr  ty = "Err"
 	tUnk  ty = "?"
 )
@@ -67,6 +68,13 @@ var intMeths = map[string]meth{
 	"IsPositive": {lean: "Int.isPosB", res: tBool}, "IsNegative": {lean: "Int.isNegB", res: tBool},
 	"ToLegacyDec": {lean: "Dec.ofInt", res: tDec}, "Neg": {lean: "Int.neg", res: tInt},
 	"Int64": {lean: "id", res: tInt}, "Uint64": {lean: "id", res: tInt},
+}
+
+// time.Time as Int nanoseconds since the epoch: Unix() is the floor division by 10^9, comparisons are exact
+var timeMeths = map[string]meth{
+	"Unix":  {lean: "Time.unix", res: tInt},
+	"After": {infix: ">", res: tBool, dec: true}, "Before": {infix: "<", res: tBool, dec: true},
+	"Equal": {infix: "=", res: tBool, dec: true},
 }
 
 var d34Meths = map[string]meth{
@@ -372,6 +380,8 @@ func (ev *env) call(c *ast.CallExpr) tre {
 		tbl = intMeths
 	case tD34:
 		tbl = d34Meths
+	case tTime:
+		tbl = timeMeths
 	default:
 		bad("method %s on %s", sel.Sel.Name, recv.t)
 	}
@@ -1049,6 +1059,8 @@ func (ev *env) goType(e ast.Expr) ty {
 		return tBool
 	case "math.Dec":
 		return tD34
+	case "time.Time":
+		return tTime
 	case "error":
 		return tErr
 	}
@@ -1096,6 +1108,8 @@ func leanType(t ty) string {
 		return "Bool"
 	case tD34:
 		return "D34"
+	case tTime:
+		return "Int"
 	}
 	bad("lean type of %s", t)
 	return ""
